@@ -10,6 +10,7 @@ CONSTANTS
   RowSets = {"full", "nocov", "abort", "nm72", "covabort"}
   IterSets = {"0-5-10", "0"}
   AllPhi = FALSE
+  AllIters = FALSE
 INIT Init
 NEXT Next
 INVARIANT AutomatonIsReference
